@@ -11,7 +11,7 @@ mkdir -p "$SHADOW"
 sed -e "s#@REPO@#$REPO#g" -e "s#@SIM@#$VERIF/sim#g" "$VERIF/sim/Cargo.toml.in" > "$SHADOW/Cargo.toml.new"
 if ! cmp -s "$SHADOW/Cargo.toml.new" "$SHADOW/Cargo.toml" 2>/dev/null; then mv "$SHADOW/Cargo.toml.new" "$SHADOW/Cargo.toml"; else rm "$SHADOW/Cargo.toml.new"; fi
 cp "$VERIF/sim/Cargo.lock" "$SHADOW/Cargo.lock"
-( cd "$SHADOW" && RUSTFLAGS="--cfg grass_verif -A unexpected_cfgs -C link-arg=-Wl,--export-dynamic" cargo build --offline --release --target-dir "$TARGET/sim" 2>&1 | tail -n 30 ) || { echo "HARNESS-ERROR build of grass-sim failed"; exit 2; }
+( cd "$SHADOW" && RUSTFLAGS="--cfg grass_verif -A unexpected_cfgs -C link-arg=-Wl,--export-dynamic" cargo build --offline --release --target-dir "$TARGET/sim" > "$TARGET/sim-build.log" 2>&1 ) || { grep -E "^error" -A14 "$TARGET/sim-build.log" | head -n 80; echo "HARNESS-ERROR build of grass-sim failed"; exit 2; }
 if [ "${1:-}" = "--cli" ]; then
   # the real binary, shipped release semantics (panic=abort); LTO off only to keep the build short
   ( cd "$REPO" && CARGO_PROFILE_RELEASE_LTO=false CARGO_PROFILE_RELEASE_CODEGEN_UNITS=16 CARGO_PROFILE_RELEASE_DEBUG=0 \
